@@ -115,6 +115,9 @@ func truncatingReaderRule(p *Prog, r *Report, key string, scope []*ssa.Function)
 			if c := callCommon(in); c != nil && isCallToNamed(c, "io", "", "LimitReader") {
 				what = "io.LimitReader"
 			}
+			if c := callCommon(in); c != nil && (isCallToNamed(c, "net/http", "", "MaxBytesReader") || isCallToNamed(c, "net/http", "", "MaxBytesHandler")) {
+				what = "http." + calleeObj(c).Name() + " (a cap on the whole body, not on one message)"
+			}
 			if al, ok := in.(*ssa.Alloc); ok && isLimited(al.Type()) {
 				what = "io.LimitedReader"
 			}
